@@ -40,7 +40,7 @@ IsStruct(x) == x.t = "struct"
 PlainDecode(bs, p, end, type, tlen, nn) ==
     IF type = T_BOOLEAN THEN
         LET nb == (nn + 7) \div 8
-        IN IF p + nb > end THEN Bad("plain-bool-short")
+        IN IF nb > end - p THEN Bad("plain-bool-short")        \* (no sums of untrusted numbers: TLC integers are 32-bit)
            ELSE [ok |-> TRUE, p |-> p + nb,
                  vals |-> [i \in 1..nn |-> <<(bs[p + ((i - 1) \div 8)] \div P2[(i - 1) % 8]) % 2>>]]
     ELSE IF type = T_BYTE_ARRAY THEN
@@ -50,12 +50,13 @@ PlainDecode(bs, p, end, type, tlen, nn) ==
                 ELSE IF q + 4 > end THEN Bad("plain-ba-len-short")
                 ELSE IF bs[q + 3] >= 128 THEN Bad("plain-ba-len-huge")
                 ELSE LET l == FromLE(Slice(bs, q, 4))
-                     IN IF q + 4 + l > end THEN Bad("plain-ba-short")
+                     IN IF l > end - (q + 4) THEN Bad("plain-ba-short")
                         ELSE go(q + 4 + l, k - 1, Append(acc, Slice(bs, q + 4, l)))
         IN go(p, nn, <<>>)
     ELSE LET w == FixedWidth(type, tlen)
          IN IF w = 0 /\ type # T_FLBA THEN Bad("plain-unknown-type")
-            ELSE IF p + nn * w > end THEN Bad("plain-fixed-short")
+            ELSE IF w > 0 /\ nn > (end - p) \div w THEN Bad("plain-fixed-short")
+            ELSE IF p > end THEN Bad("plain-fixed-short")
             ELSE [ok |-> TRUE, p |-> p + nn * w, vals |-> [i \in 1..nn |-> Slice(bs, p + (i - 1) * w, w)]]
 
 \* ---- schema ----
@@ -155,7 +156,10 @@ ChunkPagesX(bs, start, len, codec, leaf, want, decode) ==
                              ulen == NatF(ph, 2)
                              clen == NatF(ph, 3)
                          IN IF ptype = NoNat \/ ulen = NoNat \/ clen = NoNat THEN Bad("page-header-required-field")
-                            ELSE IF off + hdrLen + clen > endOff THEN Bad("page-body-overruns-chunk")
+                            \* sizes beyond what any codec can expand a file of this model's size to: rejected here so that
+                            \* later sums of page sizes stay inside TLC's 32-bit integers
+                            ELSE IF ulen > 134217728 \/ clen > 134217728 THEN Bad("page-size-beyond-model")
+                            ELSE IF clen > endOff - (off + hdrLen) THEN Bad("page-body-overruns-chunk")
                             ELSE LET body == Slice(bs, off + hdrLen + 1, clen)
                                      hasCrc == FieldIs(ph, 4, {"i32"})
                                      crc == IF hasCrc THEN SubSeq(Field(ph, 4).v, 1, 4) ELSE <<>>
